@@ -141,6 +141,12 @@ func loadCorpus() {
 		qcase{text: "create (a)-[r]->(b)"},
 		qcase{text: "create (a)-[r:EdgeKind1|EdgeKind2]->(b)"},
 		qcase{text: "match (a), (b) create (a)-[:EdgeKind1]->(b)"},
+		// inline property maps with several keys (objectid among them) on the nodes that decide traversal
+		// direction: whatever the optimizer concludes from such a map must not depend on map iteration order
+		qcase{text: "match (s {objectid: 'S-1'})-[*0..]->()-[]->(d {objectid: 'S-2', name: 'x', enabled: true, tier: 0}) return s, d"},
+		qcase{text: "match (s:NodeKind1 {name: 'a', objectid: 'S-1', flag: false})-[:EdgeKind1*1..]->(d:NodeKind2 {name: 'b', value: 3, objectid: 'S-9', other: 'q'}) return d"},
+		qcase{text: "match p = (s {a: 1, b: 2, c: 3, objectid: 'S-1'})-[:EdgeKind1*0..]->(m)-[:EdgeKind2]->(d {x: 1, y: 2, objectid: 'S-2', z: 3}) return p"},
+		qcase{text: "match (n {name: 'x', objectid: 'S-3', system_tags: 'admin_tier_0', enabled: true}) return n"},
 		// multi-part queries whose part before the WITH is one the optimizer rewrites (selective end node,
 		// variable-length expansion): the rewrite must happen on the translator's copy
 		qcase{text: "match p = (s:User)-[:MemberOf*0..]->(:Group)-[:AdminTo]->(d:Computer) where d.name = 'x' with p, d match (d)-[:AdminTo]->(c:Computer) return p, c"},
